@@ -1,7 +1,7 @@
 /-
   C03, theorem audit (round 7): the composed statements.
-  * `axisSel` — what ONE entry of an index tuple selects on its axis (an integer: one position or numpy's IndexError;
-    a slice: `sel`), `inDom` / `domAll` — the property's domain as a decidable predicate;
+  * `entrySel` — what ONE entry of an index tuple selects on its axis (an integer: one position or numpy's IndexError;
+    a slice: `sel`), `entryDom` / `tupleDom` — the property's domain as a decidable predicate;
   * `zipFix_preserves` — normalising a whole expanded tuple changes the selection on no axis;
   * `normSl_fixSl` — a normalised slice with a non-empty selection is in the domain of the text round trip;
   * `combine_getElem?` / `combine_length` — the `zip_longest` pairing of `combine_slices`.
@@ -13,30 +13,30 @@ namespace Pydap
 
 /-- what one entry of a basic index selects on an axis of length `N`: the position of a valid integer index
     (`none`: numpy raises IndexError), the positions of a slice; an (unexpanded) Ellipsis selects nothing by itself -/
-def axisSel (N : Nat) : Idx → Option (List Nat)
+def entrySel (N : Nat) : Idx → Option (List Nat)
   | Idx.int i => (selInt N i).map fun m => [m]
   | Idx.sl s => some (sel N s)
   | Idx.ell => none
 
 /-- the property's domain for one entry on an axis of length `N`: an integer `-N ≤ i < N`; a slice whose present
     bounds are `≥ -N` (arbitrarily large upwards) and whose present step is `≥ 1` -/
-def inDom (N : Nat) : Idx → Bool
+def entryDom (N : Nat) : Idx → Bool
   | Idx.int i => decide (-(N : Int) ≤ i ∧ i < N)
   | Idx.sl s => s.start.all (fun i => decide (-(N : Int) ≤ i)) && s.stop.all (fun j => decide (-(N : Int) ≤ j))
       && s.step.all (fun k => decide (1 ≤ k))
   | Idx.ell => false
 
 /-- every entry of an expanded tuple is in the domain of its axis (and there is one entry per axis) -/
-def domAll : List Nat → List Idx → Bool
-  | n :: ns, e :: es => inDom n e && domAll ns es
+def tupleDom : List Nat → List Idx → Bool
+  | n :: ns, e :: es => entryDom n e && tupleDom ns es
   | [], [] => true
   | _, _ => false
 
-theorem inDom_sl {N : Nat} {s : PSlice} (h : inDom N (Idx.sl s) = true) :
+theorem entryDom_sl {N : Nat} {s : PSlice} (h : entryDom N (Idx.sl s) = true) :
     (∀ i, s.start = some i → -(N : Int) ≤ i) ∧ (∀ j, s.stop = some j → -(N : Int) ≤ j) ∧
       (∀ k, s.step = some k → 1 ≤ k) := by
   obtain ⟨st, sp, se⟩ := s
-  simp only [inDom, Bool.and_eq_true] at h
+  simp only [entryDom, Bool.and_eq_true] at h
   obtain ⟨⟨h1, h2⟩, h3⟩ := h
   refine ⟨?_, ?_, ?_⟩
   · intro i hi; simp only at hi; subst hi; simpa using h1
@@ -44,16 +44,16 @@ theorem inDom_sl {N : Nat} {s : PSlice} (h : inDom N (Idx.sl s) = true) :
   · intro k hk; simp only at hk; subst hk; simpa using h3
 
 /-- **one axis**: normalising an entry of the domain does not change what it selects -/
-theorem fixAxis_preserves (N : Nat) (e : Idx) (h : inDom N e = true) :
-    axisSel N (fixAxis N e) = axisSel N e := by
+theorem fixAxis_preserves (N : Nat) (e : Idx) (h : entryDom N e = true) :
+    entrySel N (fixAxis N e) = entrySel N e := by
   cases e with
-  | ell => simp [inDom] at h
+  | ell => simp [entryDom] at h
   | sl s =>
-    obtain ⟨h1, h2, h3⟩ := inDom_sl h
-    simp only [fixAxis, axisSel, fix_preserves N s h1 h2 h3]
+    obtain ⟨h1, h2, h3⟩ := entryDom_sl h
+    simp only [fixAxis, entrySel, fix_preserves N s h1 h2 h3]
   | int i =>
-    simp only [inDom, decide_eq_true_eq] at h
-    simp only [fixAxis, axisSel, selInt]
+    simp only [entryDom, decide_eq_true_eq] at h
+    simp only [fixAxis, entrySel, selInt]
     by_cases hi : i < 0
     · have e1 : ¬ (0 ≤ i ∧ i < (N : Int)) := by omega
       have e2 : (0 ≤ i + (N : Int) ∧ i + (N : Int) < (N : Int)) := by omega
@@ -63,22 +63,22 @@ theorem fixAxis_preserves (N : Nat) (e : Idx) (h : inDom N e = true) :
       simp [hi, e1]
 
 /-- **whole tuple**: the normalised tuple selects, axis by axis, what the expanded tuple selects -/
-theorem zipFix_preserves : ∀ (shape : List Nat) (l : List Idx), domAll shape l = true →
-    List.zipWith axisSel shape (zipFix l shape) = List.zipWith axisSel shape l
+theorem zipFix_preserves : ∀ (shape : List Nat) (l : List Idx), tupleDom shape l = true →
+    List.zipWith entrySel shape (zipFix l shape) = List.zipWith entrySel shape l
   | [], [], _ => rfl
-  | [], _ :: _, h => by simp [domAll] at h
-  | _ :: _, [], h => by simp [domAll] at h
+  | [], _ :: _, h => by simp [tupleDom] at h
+  | _ :: _, [], h => by simp [tupleDom] at h
   | n :: ns, e :: es, h => by
-    simp only [domAll, Bool.and_eq_true] at h
+    simp only [tupleDom, Bool.and_eq_true] at h
     simp only [zipFix, List.zipWith_cons_cons, fixAxis_preserves n e h.1, zipFix_preserves ns es h.2]
 
-theorem domAll_length : ∀ (shape : List Nat) (l : List Idx), domAll shape l = true → l.length = shape.length
+theorem tupleDom_length : ∀ (shape : List Nat) (l : List Idx), tupleDom shape l = true → l.length = shape.length
   | [], [], _ => rfl
-  | [], _ :: _, h => by simp [domAll] at h
-  | _ :: _, [], h => by simp [domAll] at h
+  | [], _ :: _, h => by simp [tupleDom] at h
+  | _ :: _, [], h => by simp [tupleDom] at h
   | _ :: ns, _ :: es, h => by
-    simp only [domAll, Bool.and_eq_true] at h
-    simp [domAll_length ns es h.2]
+    simp only [tupleDom, Bool.and_eq_true] at h
+    simp [tupleDom_length ns es h.2]
 
 /-- a normalised slice whose selection is not empty has `stop ≥ 1`: it is in the domain of the text round trip -/
 theorem normSl_fixSl (N : Nat) (s : PSlice)
